@@ -21,18 +21,24 @@ def sample_cases(run, n=3):
 
 def std_finish(run, div, tot, rule, classify=None, level="model_checking", extra=None):
     nviol = 0
+    ksamples, kcount = {}, {}
     for d in div:
         k = classify(run, d) if classify else None
         if k:
             if k not in run.known:
                 run.known.append(k)
+            ksamples.setdefault(k.split(":")[0], [])
+            if len(ksamples[k.split(":")[0]]) < 3:
+                g = run.groups[d["gi"] - 1]
+                ksamples[k.split(":")[0]].append(dict(grammar=g.text(), input=run.inputs[d["ii"] - 1], options=run.options[d["oi"] - 1], df=d["df"]))
+            kcount[k.split(":")[0]] = kcount.get(k.split(":")[0], 0) + 1
             continue
         nviol += 1
         if nviol <= 25:
             run.violation(run.replay_path(d), "df=%s gi=%d ii=%d oi=%d vi=%d" % (d["df"], d["gi"], d["ii"], d["oi"], d["vi"]))
     cov = dict(states=tot["states"], transitions=tot["transitions"], traces_validated_against_impl=tot["n"],
                evaluations=tot["n"], distinct_nontrivial=len(run.groups), rule=rule, samples=sample_cases(run),
-               groups=len(run.groups), variants=len(run.variants), divergences=len(div), violating_parses=nviol,
+               groups=len(run.groups), variants=len(run.variants), divergences=len(div), violating_parses=nviol, suppressed_by_known_finding=kcount, known_finding_samples=ksamples,
                trusted_base=["Go toolchain", "TLC 1.8.0", "the harness printer/runner (lib/peg.py, runner/*.go)"])
     if extra:
         cov.update(extra)
@@ -92,5 +98,139 @@ def check_C02(tier, seed, replay=None):
 
     def plan_for(g):
         return [(ii, oi) for ii in range(nin) for oi in ((2,) if g.maydiverge else (0, 1))]
-    div, tot = run.execute(groups, inputs, options, plan_for, flagsets, lower=[[201, 233]])
+    div, tot = run.execute(groups, inputs, options, plan_for, flagsets, lower=[[201, 233]], cmp=dict(ctx=True))
     return std_finish(run, div, tot, "block placements over E(1) with multi-byte and newline terminals + random multi-rule grammars with actions, predicates, state blocks and labels x all inputs over {a,\\n,e-acute,euro} up to the bound x {default, Memoize}; every code-block event is compared")
+
+
+# ------------------------------------------------------------------------------------------
+def budget_plan(nin, default_ois=(0,), budget_oi=1):
+    def plan_for(g):
+        return [(ii, oi) for ii in range(nin) for oi in ((budget_oi,) if g.maydiverge else default_ois)]
+    return plan_for
+
+
+def check_C05(tier, seed, replay=None):
+    """backtracking rolls back the state store (incl. Cloner values); globalStore is never rolled back"""
+    import findings
+    run = Run("C05", tier, seed)
+    if tier == "quick":
+        trees = F.exhaustive(1, F.LEAVES_SMALL + F.STATE_LEAVES)
+        nrand, maxlen, flagsets = 500, 3, [[], ["-optimize-parser"], ["-optimize-parser", "-optimize-basic-latin", "-nolint"]]
+    else:
+        trees = F.exhaustive(2, [("lit", (F.A,), False), ("lit", (), False), ("state", "inc", "x", 1), ("state", "app", "cl", 2), ("pred", False, "eq", "x", 1)])
+        nrand, maxlen, flagsets = 4000, 4, FLAGSETS_8
+    groups = F.groups_from_trees(trees)
+    cfg = F.RandCfg(depth=4, maxrules=3, state=True, cloner=True, gstore=True, preds=True)
+    groups += F.random_groups(seed, nrand, cfg, gi0=len(groups) + 1)
+    inputs = F.all_inputs([F.A, F.B], maxlen)
+    options = [opt(), opt(maxexpr=3000)]
+    nin = len(inputs)
+    div, tot = run.execute(groups, inputs, options, budget_plan(nin), flagsets)
+    return std_finish(run, div, tot, "state blocks (shallow set/inc, in-place Cloner append, globalStore increments) at every position of E(d) skeletons + random grammars with state predicates; every event carries the store and globalStore its block saw and the entry action returns the final store; all inputs over {a,b} up to the bound")
+
+
+def classify_F2(run, d):
+    """known finding F2: with Memoize a cache hit on an expression that binds a label skips the binding"""
+    import findings
+    if run.options[d["oi"] - 1]["memo"] and "memolabel" in d.get("haz", []) and d["df"] in ("val", "event-notallowed", "pair-val", "pair-errs"):
+        return "F2: " + findings.what("F2")
+    return None
+
+
+def double_reach_groups(rng, n, gi0):
+    """the same rule reached at one offset along two different paths"""
+    from peg import Gram
+    out = []
+    for i in range(n):
+        g = Gram(gi0 + i)
+        sub_cfg = F.RandCfg(depth=3, maxrules=1, preds=True)
+        # rule 2: x* then labelled things under an action
+        body = g.action(g.seq([g.un("star", g.lit([F.A])), g.label(g.cls((F.A, F.B), (), False, False)),
+                               g.un("opt", g.label(g.lit([F.B])))]))
+        alts = []
+        for _ in range(rng.randint(2, 3)):
+            pre = [g.lit([F.A])] * rng.randint(0, 2)
+            suf = [rng.choice([g.lit([F.B]), g.lit([F.UA], True), g.any(), g.un("not", g.any())])]
+            alts.append(g.seq(pre + [g.label(g.ref(2))] + suf) if rng.random() < 0.5 else g.action(g.seq(pre + [g.label(g.ref(2))] + suf)))
+        g.rules = [g.choice(alts), body]
+        g.disp = ["", ""]
+        g.compute_args()
+        g.maydiverge = g.may_diverge()
+        out.append(g)
+    return out
+
+
+def check_C06(tier, seed, replay=None):
+    """Memoize, Debug, Statistics never change results; Memoize bounds the work"""
+    import findings
+    from rt import pairwise, load_obs
+    run = Run("C06", tier, seed)
+    rng = random.Random(seed)
+    if tier == "quick":
+        trees = F.exhaustive(1, F.LEAVES_FULL + F.PRED_LEAVES)
+        nrand, ndr, maxlen = 400, 60, 3
+    else:
+        trees = F.exhaustive(2, F.LEAVES_SMALL + [("pred", False, "true")])
+        nrand, ndr, maxlen = 3000, 400, 4
+    groups = F.groups_from_trees(trees)
+    cfg = F.RandCfg(depth=4, maxrules=3, preds=True, errs=0.2)
+    groups += F.random_groups(seed, nrand, cfg, gi0=len(groups) + 1)
+    groups += double_reach_groups(rng, ndr, len(groups) + 1)
+    inputs = F.all_inputs([F.A, F.B, F.UA], maxlen)
+    combos = [(m, d, s) for m in (False, True) for d in (False, True) for s in (False, True)]
+    options = [opt(memo=m, debug=d, stats=s) for (m, d, s) in combos] + [opt(memo=m, debug=d, stats=s, maxexpr=3000) for (m, d, s) in combos]
+    nin = len(inputs)
+    run.add_witnesses([f["id"] for f in findings.active("C06")], groups, inputs, options)
+
+    def plan_for(g):
+        # Memoize on a grammar that iterates without consuming never returns (known finding F3, C16): not run here
+        ois = [8 + i for i, c in enumerate(combos) if not c[0]] if g.maydiverge else range(8)
+        return [(ii, oi) for ii in range(nin) for oi in ois]
+    div, tot = run.execute(groups, inputs, options, plan_for, [[], ["-optimize-basic-latin", "-nolint"]])
+    # real-vs-real: every option combination against the default run of the same parser
+    npairs = 0
+    for vx in range(len(run.variants)):
+        obs = load_obs(run.obs[vx])
+        for (gi, ii, oi), o in obs.items():
+            base = obs.get((gi, ii, 1 if oi <= 8 else 9))
+            if base is None or o is base or gi in run.wit:
+                continue
+            npairs += 1
+            for fld in ("status", "ok", "end", "val", "errs", "nomatch"):
+                if o[fld] != base[fld]:
+                    div.append(dict(k=o["k"], vi=o["vi"], gi=gi, ii=ii, oi=oi, df="pair-" + fld, at=0, haz=["memolabel"] if any(
+                        d2["gi"] == gi and d2["ii"] == ii and "memolabel" in d2.get("haz", []) for d2 in div) else []))
+                    break
+    return std_finish(run, div, tot, "pure-block grammars (E(d) with predicates, random multi-rule, double-reach shapes: one rule reached at one offset along two paths) x all inputs x the 8 combinations of Memoize/Debug/Statistics; each compared with PegRef and with the default-option run of the same parser; ExprCnt <= expressions x (len+1) under Memoize",
+                      classify=classify_F2, extra=dict(option_pairs_compared=npairs))
+
+
+def check_C10(tier, seed, replay=None):
+    """-optimize-parser output is observationally equivalent"""
+    import findings
+    from rt import pairwise
+    run = Run("C10", tier, seed)
+    n = 250 if tier == "quick" else 2000
+    maxlen = 3 if tier == "quick" else 4
+    groups = F.random_groups(seed, n, F.RandCfg(depth=4, safe_rep=False), 1)
+    groups += F.random_groups(seed + 1, n, F.RandCfg(depth=4, state=True, cloner=True, gstore=True, preds=True, errs=0.2), len(groups) + 1)
+    groups += F.random_groups(seed + 2, n, F.RandCfg(depth=4, throw=True, preds=True, errs=0.3, leaves=F.LEAVES_FULL + F.LEAVES_UTF8), len(groups) + 1)
+    inputs = F.all_inputs([F.A, F.B, F.NL], maxlen)
+    options = [opt(), opt(maxexpr=3000)]
+    nin = len(inputs)
+    xs = [[], ["-optimize-basic-latin"], ["-nolint"], ["-optimize-basic-latin", "-nolint"]]
+    flagsets = [f for x in xs for f in (x, x + ["-optimize-parser"])]
+    div, tot = run.execute(groups, inputs, options, budget_plan(nin), flagsets, lower=[[201, 233]])
+    pairs = [(i, i + 1) for i in range(0, len(run.variants), 2)]
+    d2, npairs = pairwise(run, pairs, fields=("status", "ok", "end", "val", "errs", "nomatch", "escaped"))
+    div += [d for d in d2 if d["gi"] not in run.wit]
+    # complete removal of the state store when the grammar has no state blocks
+    removed = 0
+    for v in run.variants:
+        if v.optimized and not v.state_on:
+            src = open(os.path.join(v.dir, "g.go")).read()
+            removed += 1
+            if "storeDict)" in src and "func (p *parser) cloneState" in src:
+                run.violation(run.replay_path(dict(k=0, vi=v.vi, gi=v.groups[0].gi, ii=1, oi=1, df="state-not-removed", at=0)), "state store code present in an optimized parser without state blocks")
+    return std_finish(run, div, tot, "random grammars (plain, with state/Cloner/globalStore/predicates/errors, with throw/recover and multi-byte terminals) x all inputs x flag pairs (X, X + -optimize-parser), X over the other flags; each run compared with PegRef and the two members of a pair with each other (value, error list)",
+                      extra=dict(pairs_compared=npairs, stateless_optimized_parsers_checked=removed))
